@@ -25,4 +25,18 @@ CLAIMED = {
              "interpreter does (sampled by the correspondence: all buffer lengths 0..16, boundary and random values). "
              "Slice capacity/aliasing not modelled.",
         tech="Lean 4 proof over regenerated codec tables + differential correspondence"),
+    "C16": dict(
+        text="Machine-checked proofs (Lean 4 kernel): the decimal rendering model is injective, digits-only, has no "
+             "leading zero and parses back, for every natural number; the MapClear loop empties any map under every "
+             "iteration order and the map stays usable; Assume/Assert panic iff the argument is false; the "
+             "WaitTimeout protocol (caller, helper goroutine, timer, signals, other lock users) returns with the "
+             "caller owning the lock under every interleaving, never unlocks a free mutex, and the caller can always "
+             "finish. Tied to the code by the regenerated canonical bodies of machine/prims.go and of "
+             "primitive.WaitTimeout (decide) and by running the real functions against the compiled models; elapsed "
+             "time of WaitTimeout is measured and judged with slack (runtime behaviour: partial).",
+        ref="DESIGN.md §6 C16",
+        note="Trusted/modelled, not verified: fmt's %d, Go map range/delete semantics, sync.Cond, sync.Mutex, "
+             "time.After, select; the Go scheduler's timing (the theorem covers event order, not delays). Known "
+             "finding: a ghost waiter left by a timed-out call steals the next Signal (known_findings.jsonl).",
+        tech="Lean 4 proofs (induction, protocol invariant over all schedules) + differential correspondence + timed scenarios"),
 }
